@@ -412,7 +412,7 @@ class Result:
 
     def finish(self, level="proof", rule=""):
         wall = time.time() - self.t0
-        if level == "proof" and not self.obligations:
+        if level == "proof" and (not self.obligations or not self.discharged):
             level = "other"
             self.extra["explanation"] = ("no Lean property file for this id yet: this run compared the real engine with the compiled Lean model "
                                          "(differential correspondence) and evaluated the direct oracle; " + rule)[:2000]
